@@ -71,7 +71,9 @@ def gen_model(rng, idx):
       ks_ = [(1, 3), (3, 1), (2, 3), (3, 3)][(idx // 6) % 4]
       mk_ = (rng.integers(0, 2, size=ks_) if min(ks_) > 1 else np.array([[1, 0, 1]]).reshape(ks_)).astype(np.float32)
       mk_.flat[0] = 1.0
-      x = qkeras.QConv2D(2, ks_, padding="same", mask=mk_, kernel_quantizer=pickw(rng), bias_quantizer=pick(rng, WQ[:6] + [None]), name=f"cm{idx}")(x)
+      # one of the four shapes always WITHOUT a kernel quantizer: the rebuilt mask (np.array of a list: float64) then meets the raw float32 kernel
+      x = qkeras.QConv2D(2, ks_, padding="same", mask=mk_, kernel_quantizer=(None if (idx // 6) % 4 == 2 else pickw(rng)),
+                         bias_quantizer=pick(rng, WQ[:6] + [None]), name=f"cm{idx}")(x)
     for j in range(int(rng.integers(1, 3))):
       t = int(rng.integers(0, 4))
       if t == 3:
